@@ -404,19 +404,37 @@ def _body(ck: Checker, prog: Program, q: str):
 def _r2(ck: Checker, prog: Program):
     f = prog.func("processing.prepare_records_with_inconsistent_dt")
     fq = f.qualname
-    # counting loop
+    # counting loop: one increment of dt_with_count[<record>.ns.dt_in_seconds] per record (three idioms)
     loops = [st for st in f.node.body if isinstance(st, ast.For)]
     good = False
-    if loops and unparse(loops[0].iter) == "records":
+    if loops and unparse(loops[0].iter) == "records" and isinstance(loops[0].target, ast.Name) \
+            and not any(isinstance(x, (ast.Break, ast.Continue, ast.Return)) for x in ast.walk(loops[0])):
         lp = loops[0]
-        rec = unparse(lp.target)
-        key = [st for st in lp.body if isinstance(st, ast.Assign) and unparse(st.value) == f"{rec}.ns.dt_in_seconds"]
-        tr = [st for st in lp.body if isinstance(st, ast.Try)]
-        if key and tr:
-            k = unparse(key[0].targets[0])
-            inc = [x for x in tr[0].body if _is_aug(x, f"dt_with_count[{k}]")]
-            ini = [x for h in tr[0].handlers for x in h.body if isinstance(x, ast.Assign) and unparse(x.targets[0]) == f"dt_with_count[{k}]" and unparse(x.value) == "1"]
-            good = len(inc) == 1 and len(ini) == 1 and all(unparse(h.type) == "KeyError" for h in tr[0].handlers)
+        rec = lp.target.id
+        keytxt = f"{rec}.ns.dt_in_seconds"
+        alias = {unparse(st.targets[0]) for st in lp.body if isinstance(st, ast.Assign) and unparse(st.value) == keytxt and isinstance(st.targets[0], ast.Name)}
+        keys = alias | {keytxt}
+        rest = [st for st in lp.body if not (isinstance(st, ast.Assign) and unparse(st.value) == keytxt and isinstance(st.targets[0], ast.Name))]
+
+        def is_inc(x, k):
+            return _is_aug(x, f"dt_with_count[{k}]")
+
+        def is_init(x, k):
+            return isinstance(x, ast.Assign) and unparse(x.targets[0]) == f"dt_with_count[{k}]" and unparse(x.value) == "1"
+        if len(rest) == 1:
+            st = rest[0]
+            for k in keys:
+                if isinstance(st, ast.Try) and len(st.body) == 1 and is_inc(st.body[0], k) and len(st.handlers) == 1 and unparse(st.handlers[0].type) == "KeyError" \
+                        and len(st.handlers[0].body) == 1 and is_init(st.handlers[0].body[0], k) and not st.orelse and not st.finalbody:
+                    good = True
+                if isinstance(st, ast.Assign) and unparse(st.targets[0]) == f"dt_with_count[{k}]" and unparse(st.value) in (f"dt_with_count.get({k}, 0) + 1", f"1 + dt_with_count.get({k}, 0)"):
+                    good = True
+                if isinstance(st, ast.If) and unparse(st.test) in (f"{k} in dt_with_count", f"{k} in dt_with_count.keys()") and len(st.body) == 1 and is_inc(st.body[0], k) \
+                        and len(st.orelse) == 1 and is_init(st.orelse[0], k):
+                    good = True
+                if isinstance(st, ast.If) and unparse(st.test) in (f"{k} not in dt_with_count", f"{k} not in dt_with_count.keys()") and len(st.body) == 1 and is_init(st.body[0], k) \
+                        and len(st.orelse) == 1 and is_inc(st.orelse[0], k):
+                    good = True
     if good:
         ck.ok(P + "R2", fq, "dt_with_count[dt] counts the records per time step (key record.ns.dt_in_seconds)")
         ck.ok(P + "R3", fq, "group key record.ns.dt_in_seconds", nontrivial=False)
@@ -465,6 +483,9 @@ def _r2(ck: Checker, prog: Program):
         # ---- the count that is returned
         nval = unparse(dval)
         count_ok = nval == f"len({lst})" or nval == f"dt_with_count[{unparse(chosen)}]" or (counter is not None and nval == counter)
+        if not count_ok and isinstance(dval, ast.Name):
+            ndefs = [st for st in body if isinstance(st, ast.Assign) and len(st.targets) == 1 and unparse(st.targets[0]) == dval.id]
+            count_ok = len(ndefs) == 1 and unparse(ndefs[0].value) in (f"len({lst})", f"dt_with_count[{unparse(chosen)}]")
         scan = _majority_scan(body) if pol == "keeping_majority_time_step" else None
         if scan is not None and nval == scan[1] and unparse(chosen) == scan[0]:
             count_ok = True
